@@ -215,13 +215,17 @@ def run(smoke=False):
 
     n_ax, f_ax = axioms.run(n_rounds=8 if smoke else 60)
     fails += ["axiom instance false on real functions: " + x for x in f_ax]
+    from conformance import normalform
+
+    n_nf, f_nf = normalform.run(n=150 if smoke else 1500)
+    fails += f_nf
     with facades.patched():
         pass
-    res = {"cases": n, "axiom_instances_evaluated": n_ax, "failures": fails, "specs": len(SPECS), "alias_tests": len(ALIAS), "seconds": round(time.time() - t0, 2), "smoke": smoke,
+    res = {"cases": n, "axiom_instances_evaluated": n_ax, "normal_form_evaluations": n_nf, "failures": fails, "specs": len(SPECS), "alias_tests": len(ALIAS), "seconds": round(time.time() - t0, 2), "smoke": smoke,
            "torch": torch.__version__}
     with open(os.path.join(ROOT, "conformance", "result.json"), "w") as fh:
         json.dump(res, fh, indent=1)
-    print("conformance: %d cases, %d axiom instances, %d failures (%.1fs)" % (n, n_ax, len(fails), res["seconds"]))
+    print("conformance: %d handler cases, %d axiom instances, %d term evaluations, %d failures (%.1fs)" % (n, n_ax, n_nf, len(fails), res["seconds"]))
     for x in fails[:20]:
         print("  FAIL", x[:300])
     return 0 if not fails else 1
